@@ -29,6 +29,9 @@ type mSpec struct {
 	PHKind  string     `json:"placeholder_kind"`
 }
 
+// phLabel is a named string type (an enum-like label used as placeholder).
+type phLabel string
+
 func drawPlaceholder(r *rand.Rand) (any, string) {
 	if r.IntN(4) == 0 {
 		// placeholders whose YAML rendering spans several lines (block collections with keys
@@ -59,6 +62,10 @@ func drawPlaceholder(r *rand.Rand) (any, string) {
 	if r.IntN(6) == 0 {
 		// strings that are YAML syntax when written plain
 		return []string{"- a", "---", "...", "\t", "a: b", "#x", "[", "{", "]", "}", "? x", "| ", "> ", "|", ">", "!tag", "&a", "*a", "@", "`", "%", "'", "\"", " lead", "trail ", "", "~", "on", "yes", "0o17", "1_000", ".inf", ".nan", "2001-12-14", "<<", "=", "a #b", "a: ", "- ", "-", ":", ",", "a,b", "[a]", "{a: b}", "--- x", "a\tb", "é: ü", "\u00a0", "x\u2028y", "\x7f", "\x01"}[r.IntN(52)], "string-yaml-syntax"
+	}
+	if r.IntN(12) == 0 {
+		// the same kind of text in a value that is string-kinded but not of type string
+		return phLabel([]string{"- a", "---", "...", "\t", "a: b", ".inf", "~", "true", "007", "plain", "multi\nline", ""}[r.IntN(12)]), "named-string-type"
 	}
 	switch r.IntN(10) {
 	case 0:
